@@ -193,6 +193,7 @@ class MediaList(cssutils.util._NewListBase):
         newMedium = self.__prepareset(newMedium)
         if newMedium:
             self._seq[self._seqindex(index)] = (newMedium, 'MediaQuery', None, None)
+            self._wellformed = True
 
     def appendMedium(self, newMedium):
         """Add the `newMedium` to the end of the list.
@@ -240,6 +241,8 @@ class MediaList(cssutils.util._NewListBase):
                 self._seq.append(newMedium, 'MediaQuery')
 
             self._seq._readonly = True
+            # a list which holds (only) accepted media is well-formed
+            self._wellformed = True
 
             return True
 
